@@ -48,7 +48,7 @@ impl<'a> RegExp<'a> {
 
             if config.is_verbose_mode_enabled {
                 // Remove line breaks before checking matches, otherwise check will be incorrect.
-                regex = Regex::new(&regex.to_string().replace('\n', "")).unwrap();
+                regex = Self::compile_regex(&regex.to_string().replace('\n', ""), config).unwrap();
             }
 
             if !Self::is_each_test_case_matched_after_rotating_alternations(
@@ -144,10 +144,23 @@ impl<'a> RegExp<'a> {
     ) -> std::result::Result<Regex, regex::Error> {
         if config.is_output_colorized {
             let color_replace_regex = Regex::new("\u{1b}\\[(?:\\d+;\\d+|0)m").unwrap();
-            Regex::new(&color_replace_regex.replace_all(&expr.to_string(), ""))
+            Self::compile_regex(
+                &color_replace_regex.replace_all(&expr.to_string(), ""),
+                config,
+            )
         } else {
-            Regex::new(&expr.to_string())
+            Self::compile_regex(&expr.to_string(), config)
         }
+    }
+
+    fn compile_regex(
+        pattern: &str,
+        config: &RegExpConfig,
+    ) -> std::result::Result<Regex, regex::Error> {
+        // The check must judge the pattern under the same flag as the returned one.
+        RegexBuilder::new(pattern)
+            .case_insensitive(config.is_case_insensitive_matching)
+            .build()
     }
 
     fn regex_matches_all_test_cases(regex: &Regex, test_cases: &[String]) -> bool {
